@@ -12,7 +12,9 @@ RULE = ("random cgroup trees (depth<=3, fan-out<=5, prefix-sharing names svc/svc
         "reap_memory x always_continue, scripted per-pid kill results (ok/ESRCH/EPERM), 2-4 tick histories with cgroups vanishing / "
         "appearing between ticks; every kill(2), setxattr(2), cgroup.kill/cgroup.freeze write and reap syscall of the real plugin "
         "is checked: SIGKILL only, pid>0, pid listed in the victim's subtree, victim eligible under the configured patterns, "
-        "xattr/control-file writes only on the victim, at most one victim signalled per invocation and it is the last one attempted. "
+        "xattr/control-file writes only on the victim, at most one victim signalled per invocation and it is the last one attempted "
+        "(a cgroup.kill write counts as signalling; half of the kernelkill cases use cgroup-v2 shaped trees whose inner nodes have no own processes "
+        "and a hierarchical / zero / absent pids.current). "
         "non-trivial = >=1 kill(2) or cgroup.kill write observed; distinct by scenario hash")
 ASSUMPTIONS = ["kill(2) is interposed and never reaches the kernel; a successful kill removes the pid from cgroup.procs at the next open",
                "pids are unique per scenario so every signal identifies its cgroup",
@@ -31,6 +33,10 @@ def gen(rng, cid, tier, plugin=None, pid0=True):
     args = KG.kill_args(rng, plugin, pats)
     if rng.random() < 0.25:
         args["kernelkill"] = "true"
+        if rng.random() < 0.5:
+            # several flat candidates whose processes all live in sub-cgroups
+            KG.kernelkill_inner_nodes(rng, cgs, info, args)
+            pats = [args["cgroup"]]
     allpids = [p for r in list(info) + list(info2) for p in (info.get(r) or info2.get(r))["pids"]]
     kill = {"default": "ok", "pids": {}}
     mode = rng.random()
@@ -118,6 +124,7 @@ def containment(v, scn, res, args, prop_rules=True):
             if not K.victim_eligible(a.victim, pats, w.dirs(), recursive):
                 v.bad("victim-not-eligible", "recursive" if recursive else "flat", "tick %d: victim %s not matched by %s (recursive=%s)" % (inv.tick, a.victim, pats, recursive))
             sub = set(w.subtree(a.victim)) if a.victim != "" else set(w.cg)
+            kernel_killed = False
             for k in a.kills:
                 nk += 1
                 if k["sig"] != 9:
@@ -139,7 +146,11 @@ def containment(v, scn, res, args, prop_rules=True):
                     v.bad("control-write-on-other-cgroup", f, "tick %d victim %s: write %r to %s" % (inv.tick, a.victim, e["data"][:20], e["path"]))
                 if f == "cgroup.kill":
                     nk += 1
-            if a.ok_kills:
+                    if not e.get("fault"):
+                        # the kernel signals every process of a populated cgroup on this write (oomd only writes it after
+                        # reading populated=1), so this victim counts as signalled whatever oomd thinks it killed
+                        kernel_killed = True
+            if a.ok_kills or kernel_killed:
                 signalled_before = True
     return nk, len(invs)
 
